@@ -125,6 +125,6 @@ theorem C13_bch_commuting (lb : VField d K → VField d K → VField d K) (u v :
     intro c w; funext idx i; simp [VField.add, VField.smul, Vec.add, Vec.smul]
   have z' : ∀ (c : K) (w : VField d K), w.sub (VField.smul c (fun _ _ => 0)) = w := by
     intro c w; funext idx i; simp [VField.sub, VField.smul, Vec.sub, Vec.smul]
-  simp only [composeSvfs, hcomm, hzero, z, z', ite_self]
+  simp only [composeSvfs, bchCombine, hcomm, hzero, z, z', ite_self]
 
 end Deepali
